@@ -55,18 +55,16 @@ def run(ctx):
     rng = ctx.rng
     cases, metas = [], {}
     for k in range(ctx.budget(1500, 60000)):
-        line, m = (gen.gen_upd if k % 3 else adversarial_upd)(rng.fork('u%d' % k), k, *(() if k % 3 else (ctx.tier,)))
+        line, m = (gen.gen_upd(rng.fork('u%d' % k), k, wtype='i') if k % 3 else adversarial_upd(rng.fork('u%d' % k), k, ctx.tier))
         cases.append(line)
         metas[k] = m
-    res = ctx.component('K-UPD', cases)
-    graphs = [gen.gen_graph_random(rng.fork('g%d' % k), 500000 + k)[0] for k in range(ctx.budget(100, 2000))]
-    ctx.component('K-GRAPH', graphs)
+    res = ctx.component('K-UPD-W', cases, keys={'dims', 'w1'})
     traj, tmetas = [], {}
     for k in range(ctx.budget(80, 3000)):
         line, m = gen.gen_e2e(rng.fork('t%d' % k), 600000 + k, maxit_max=20, r_max=2, trace=2)
         traj.append(line)
         tmetas[600000 + k] = m
-    res2 = ctx.component('K-E2E', traj)
+    res2 = ctx.component('K-E2E(trajectories, implementation only)', traj, model=False)
     stats = {'steps': 0, 'judged': 0, 'precondition_fails': 0, 'unreachable': 0, 'boundary': 0, 'with_snapped_mass': 0}
     keys = set()
     if res:
